@@ -31,39 +31,7 @@ ASSUMPTIONS = [
 ]
 
 
-class Driver:
-    """Listener of the subject that drives another machine from inside the subject's callbacks (records nothing in the subject's recorder)."""
-
-    def __init__(self):
-        self.armed = None
-        self.results = []
-
-    def _drive(self):
-        if self.armed is None:
-            return
-        peer, events = self.armed
-        self.armed = None
-        for ev, a, kw in events:
-            try:
-                self.results.append(("ok", peer.send(ev, *a, **kw)))
-            except (TransitionNotAllowed, Boom) as e:
-                self.results.append(("exc", e))
-
-    def on_enter_state(self):
-        self._drive()
-
-    def on_exit_state(self):
-        self._drive()
-
-
 class P(Play):
-    async def construct(self, name="main", model=None, Hh=None, state0=None):
-        ctx = await super().construct(name, model, Hh, state0)
-        if name == "main" and not ctx.interp.is_async and self.case.get("driver_listener"):
-            self.drv = Driver()
-            ctx.sm.add_listener(self.drv)
-        return ctx
-
     async def op_send(self, step):
         tgt = step.get("target", "main")
         if tgt not in self.ctxs:
@@ -77,58 +45,6 @@ class P(Play):
             self.nontrivial = True
             self.labels.add("subject-step-after-noise")
             self._noise_since = False
-
-    async def op_sibling(self, step):
-        if "sib" in self.ctxs:
-            return
-        save = (self.rtc, self.allow)
-        self.allow = step.get("allow", self.allow)
-        await self.construct("sib")
-        self.rtc, self.allow = save
-        self.ctxs["sib"].interp.allow = step.get("allow", self.allow)
-        if self.ctxs["sib"].interp.is_async and self.explicit_activate:
-            await self.op_activate({"target": "sib"})
-        self.labels.add("noise:sibling")
-        self._noise_since = True
-
-    async def op_drive_from_callback(self, step):
-        """Arm the driver: during the next transition of the subject its listener sends events to the sibling."""
-        if "sib" not in self.ctxs or not hasattr(self, "drv") or self.ctxs["sib"].interp.is_async:
-            return
-        sib = self.ctxs["sib"]
-        events = [(e["ev"], e.get("args", []), e.get("kw", {})) for e in step["events"]]
-        self.drv.armed = (sib.sm, events)
-        self.drv.results.clear()
-        self._driven = True
-        try:
-            await self.op_send(step["then"])
-        finally:
-            self._driven = False
-        fired = self.drv.armed is None
-        self.drv.armed = None
-        if not fired:
-            sib.H.log.clear()
-            return
-        # the sibling must have processed each event by itself, completely, when it was sent
-        it = sib.interp
-        it.begin(list(sib.H.log))
-        from ..core import ExpBoom, ExpTNA, Mismatch, exc_matches, result_matches
-
-        for (ev, a, kw), obs in zip(events, self.drv.results):
-            try:
-                exp = ("ok", it.send(ev, a, kw))
-            except (ExpBoom, ExpTNA) as e:
-                exp = ("exc", e)
-            if exp[0] != obs[0] or (exp[0] == "ok" and not result_matches(exp[1], obs[1])) or (exp[0] == "exc" and exc_matches(exp[1], obs[1], sib.H)):
-                raise Fail("sibling-driven-from-callback", f"step {self.i}: sibling sent {ev!r} from inside a callback of the subject gave {obs!r}, expected {exp!r}")
-        try:
-            it.finish()
-        except Mismatch as m:
-            raise Fail("sibling-driven-from-callback", f"step {self.i}: sibling's callback log after being driven from the subject's callback: {m.detail}")
-        self.check_state(sib, f"step {self.i} sibling driven from inside the subject's callback")
-        sib.H.log.clear()
-        self.labels.add("noise:sibling-driven-from-callback")
-        self.nontrivial = True
 
     async def op_noise_class(self, step):
         """Unrelated class reusing the subject's class name, method names and parameter names."""
